@@ -48,6 +48,8 @@ type Cfg struct {
 	// (the exact comparison with the model still covers every history)
 	Stride int `json:"stride"`
 	Offset int `json:"offset"`
+	// how abstract ids are embedded into uuids (hx.IdScheme)
+	Ids int `json:"ids"`
 }
 
 type modelState struct {
@@ -234,6 +236,9 @@ func loadCfg(p string) Cfg {
 	var c Cfg
 	if err := json.Unmarshal(b, &c); err != nil {
 		panic(err)
+	}
+	if c.Ids != 0 {
+		hx.IdScheme = c.Ids
 	}
 	return c
 }
